@@ -753,6 +753,22 @@ func runC15() error {
 			}
 			exhaustiveC15(w, *workers, func(c *c15Case) { emit(c); rep.Count("stream.exhaustive", 1) })
 			genC15(r, perWorker, func(c *c15Case) { emit(c); rep.Count("stream.random", 1) })
+			// cache order: histories of encode calls on type families no cache has seen (c15_cache.go)
+			cacheBoxC15(w, *workers)
+			cacheRandomC15(r.Fork(78), perWorker/10+1)
+			// omit model: encodeO (Lean) = the oj/sen writers under all four OmitNil/OmitEmpty combinations (c15_omit.go)
+			omitEmit := func(c *c15Case) {
+				if err := checkOmitModel(d, c); err != nil {
+					select {
+					case errc <- err:
+					default:
+					}
+				}
+			}
+			if w == 0 {
+				boundaryOmitC15(func(c *c15Case) { omitEmit(c); rep.Count("stream.omit_boundary", 1) })
+			}
+			genC15(r.Fork(79), perWorker/4+1, func(c *c15Case) { omitEmit(c); rep.Count("stream.omit_model", 1) })
 			// the option pair the encoders disagree about
 			genC15(r.Fork(77), perWorker/8+1, func(c *c15Case) {
 				c.spec.OmitNil, c.spec.OmitEmpty = r.Bool(), r.Bool()
@@ -807,7 +823,8 @@ func runC15() error {
 	}
 	rep.Rule = "every encoder (oj.JSON tight and indented, oj.Marshal, oj.Write, sen.String tight and indented, pretty.JSON, alt.Decompose+oj.JSON) " +
 		"describes the tree of the reflective reference; the Lean refEncode equals the harness reference; each Lean plan interpreter equals its implementation " +
-		"(under the smallest set of listed deviations); with ojg.GoOptions the reference equals encoding/json (nil ~ empty)"
+		"(under the smallest set of listed deviations); with ojg.GoOptions the reference equals encoding/json (nil ~ empty); " +
+		"cache order: every encode call of a history on a never-seen type family describes the tree the same call describes as the first call on a fresh identical family"
 	rep.Exhaustive = append(rep.Exhaustive, "every struct type with two fields over {int, string, *int} x 6 tag forms (none, name, name+omitempty, omitempty, -, string), every zero/non-zero value pattern, 8 key-naming option combinations")
 	rep.Notes = append(rep.Notes, "self-embedding types (pc.SelfEmb, pc.EmbA/pc.EmbB, and a struct holding them in fields, slices and maps) are outside the Lean model (GoType is a finite tree): every encoder is compared with encoding/json (member names spelled as the options say) under three key-naming option sets, by value and by pointer")
 	rep.Notes = append(rep.Notes, "types: reflect.StructOf structs (tags, embedded structs and pointers, nested containers, interfaces) and the named types of harness packages pa/pb; values with nil pointers, slices, maps and interfaces at every level")
@@ -855,6 +872,15 @@ func replayC15() error {
 	if err := json.Unmarshal(data, &rf); err != nil {
 		return err
 	}
+	if _, ok := rf.Replay["cache_family"]; ok {
+		if err := replayCache(rf.Replay); err != nil {
+			return err
+		}
+		for _, f := range rep.Findings {
+			fmt.Printf("%s %s: %s\n", f.Kind, f.Class, f.What)
+		}
+		return nil
+	}
 	c, err := caseFromReplay(rf.Replay)
 	if err != nil {
 		return err
@@ -864,8 +890,15 @@ func replayC15() error {
 		return err
 	}
 	defer d.Close()
-	if c.spec.OmitNil || c.spec.OmitEmpty {
+	if _, ok := rf.Replay["model"]; ok || strings.HasPrefix(fmt.Sprint(rf.Replay["class_hint"]), "omit-model") {
+		if err := checkOmitModel(d, c); err != nil {
+			return err
+		}
+	} else if c.spec.OmitNil || c.spec.OmitEmpty {
 		checkOmit(c)
+		if err := checkOmitModel(d, c); err != nil {
+			return err
+		}
 	} else if err := checkC15(d, c); err != nil {
 		return err
 	}
